@@ -1,14 +1,543 @@
 package main
 
+import (
+	"context"
+	"encoding/json"
+	"fmt"
+	"go/types"
+	"math/big"
+	"os"
+	"os/exec"
+	"path/filepath"
+	"regexp"
+	"strings"
+	"time"
+
+	"golang.org/x/tools/go/ssa"
+)
+
+// Replay turns a solver model into a call of the real function: an in-package
+// test is injected with `go test -overlay` (the repository is not touched), the
+// function is run on the model's inputs and the violated clause is re-evaluated
+// on the observed result by the solver (a ground query, no search).
+
 type replayOut struct {
 	files     map[string]string
 	log       string
 	confirmed bool
 }
 
-func tryReplay(o CheckOpts, r Result, reports []*FnReport) *replayOut { return nil }
+// ---- model parsing ---------------------------------------------------------
 
-func runReplay(dir string) int { return 0 }
+type sexp struct {
+	atom string
+	list []*sexp
+}
 
+func parseSexp(s string) []*sexp {
+	var toks []string
+	i := 0
+	for i < len(s) {
+		c := s[i]
+		switch {
+		case c == '(' || c == ')':
+			toks = append(toks, string(c))
+			i++
+		case c == ' ' || c == '\n' || c == '\t' || c == '\r':
+			i++
+		case c == '|':
+			j := strings.IndexByte(s[i+1:], '|')
+			if j < 0 {
+				j = len(s) - i - 2
+			}
+			toks = append(toks, s[i:i+j+2])
+			i += j + 2
+		default:
+			j := i
+			for j < len(s) && !strings.ContainsRune("() \n\t\r", rune(s[j])) {
+				j++
+			}
+			toks = append(toks, s[i:j])
+			i = j
+		}
+	}
+	pos := 0
+	var parse func() *sexp
+	parse = func() *sexp {
+		if pos >= len(toks) {
+			return nil
+		}
+		t := toks[pos]
+		pos++
+		if t == "(" {
+			n := &sexp{}
+			for pos < len(toks) && toks[pos] != ")" {
+				n.list = append(n.list, parse())
+			}
+			pos++
+			return n
+		}
+		return &sexp{atom: t}
+	}
+	var out []*sexp
+	for pos < len(toks) {
+		if toks[pos] == ")" {
+			pos++
+			continue
+		}
+		out = append(out, parse())
+	}
+	return out
+}
 
-func residualNotes(prop string) []string { return nil }
+// bitsOf returns the value of a bit-vector / integer literal.
+func bitsOf(x *sexp) (*big.Int, bool) {
+	if x == nil {
+		return nil, false
+	}
+	if x.atom != "" {
+		a := x.atom
+		switch {
+		case strings.HasPrefix(a, "#x"):
+			v, ok := new(big.Int).SetString(a[2:], 16)
+			return v, ok
+		case strings.HasPrefix(a, "#b"):
+			v, ok := new(big.Int).SetString(a[2:], 2)
+			return v, ok
+		default:
+			v, ok := new(big.Int).SetString(a, 10)
+			return v, ok
+		}
+	}
+	if len(x.list) == 2 && x.list[0].atom == "-" {
+		v, ok := bitsOf(x.list[1])
+		if ok {
+			return v.Neg(v), true
+		}
+	}
+	if len(x.list) == 3 && x.list[0].atom == "_" && strings.HasPrefix(x.list[1].atom, "bv") {
+		v, ok := new(big.Int).SetString(x.list[1].atom[2:], 10)
+		return v, ok
+	}
+	return nil, false
+}
+
+func bitLen(x *sexp) int {
+	if x.atom != "" {
+		if strings.HasPrefix(x.atom, "#x") {
+			return 4 * (len(x.atom) - 2)
+		}
+		if strings.HasPrefix(x.atom, "#b") {
+			return len(x.atom) - 2
+		}
+	}
+	return 0
+}
+
+// fpBits returns the IEEE bit pattern of an (fp s e m) / special-value term.
+func fpBits(x *sexp, eb, sb int) (*big.Int, bool) {
+	if x == nil {
+		return nil, false
+	}
+	if len(x.list) == 4 && x.list[0].atom == "fp" {
+		s, ok1 := bitsOf(x.list[1])
+		e, ok2 := bitsOf(x.list[2])
+		m, ok3 := bitsOf(x.list[3])
+		if !ok1 || !ok2 || !ok3 {
+			return nil, false
+		}
+		v := new(big.Int).Lsh(s, uint(eb+sb-1))
+		v.Or(v, new(big.Int).Lsh(e, uint(sb-1)))
+		v.Or(v, m)
+		return v, true
+	}
+	if len(x.list) == 4 && x.list[0].atom == "_" {
+		allE := new(big.Int).Lsh(new(big.Int).Sub(new(big.Int).Lsh(big.NewInt(1), uint(eb)), big.NewInt(1)), uint(sb-1))
+		sign := new(big.Int).Lsh(big.NewInt(1), uint(eb+sb-1))
+		switch x.list[1].atom {
+		case "+zero":
+			return big.NewInt(0), true
+		case "-zero":
+			return sign, true
+		case "+oo":
+			return allE, true
+		case "-oo":
+			return new(big.Int).Or(allE, sign), true
+		case "NaN":
+			return new(big.Int).Or(allE, new(big.Int).Lsh(big.NewInt(1), uint(sb-2))), true
+		}
+	}
+	return nil, false
+}
+
+// goLiteral renders a model value as a Go expression of type t.
+func goLiteral(x *sexp, t types.Type) (string, bool) {
+	b, ok := t.Underlying().(*types.Basic)
+	if !ok {
+		return "", false
+	}
+	tn := types.TypeString(t, func(p *types.Package) string { return "" })
+	switch {
+	case b.Info()&types.IsBoolean != 0:
+		if x.atom == "true" || x.atom == "false" {
+			return tn + "(" + x.atom + ")", true
+		}
+	case b.Info()&types.IsInteger != 0:
+		v, ok := bitsOf(x)
+		if !ok {
+			return "", false
+		}
+		w, signed := intWidth(b)
+		if signed && v.Sign() >= 0 && bitLen(x) > 0 && v.Bit(w-1) == 1 {
+			v = new(big.Int).Sub(v, new(big.Int).Lsh(big.NewInt(1), uint(w)))
+		}
+		return fmt.Sprintf("%s(%s)", tn, v.String()), true
+	case b.Kind() == types.Float32:
+		v, ok := fpBits(x, 8, 24)
+		if !ok {
+			return "", false
+		}
+		return fmt.Sprintf("%s(math.Float32frombits(0x%x))", tn, v), true
+	case b.Kind() == types.Float64:
+		v, ok := fpBits(x, 11, 53)
+		if !ok {
+			return "", false
+		}
+		return fmt.Sprintf("%s(math.Float64frombits(0x%x))", tn, v), true
+	}
+	return "", false
+}
+
+func scalarType(t types.Type) bool {
+	b, ok := t.Underlying().(*types.Basic)
+	return ok && b.Info()&(types.IsBoolean|types.IsInteger|types.IsFloat) != 0 && b.Info()&types.IsUntyped == 0
+}
+
+var replayCount int
+
+func tryReplay(o CheckOpts, r Result, reports []*FnReport) *replayOut {
+	if replayCount >= 10 || len(o.Overlay) > 0 {
+		return nil
+	}
+	var rep *FnReport
+	for _, x := range reports {
+		if x.Name == r.Fn {
+			rep = x
+		}
+	}
+	if rep == nil || rep.fn == nil || rep.Contract == nil {
+		return nil
+	}
+	fn := rep.fn
+	if fn.Signature.Recv() != nil {
+		return nil
+	}
+	for _, p := range fn.Params {
+		if !scalarType(p.Type()) {
+			return nil
+		}
+	}
+	res := fn.Signature.Results()
+	for i := 0; i < res.Len(); i++ {
+		if !scalarType(res.At(i).Type()) {
+			return nil
+		}
+	}
+	if r.Kind != "post" && r.Kind != "nopanic" {
+		return nil
+	}
+	// model: ((sym val) (sym val) ...)
+	ms := strings.TrimSpace(r.Model)
+	if i := strings.Index(ms, "("); i >= 0 {
+		ms = ms[i:]
+	}
+	top := parseSexp(ms)
+	if len(top) == 0 {
+		return nil
+	}
+	vals := map[string]*sexp{}
+	for _, pair := range top[0].list {
+		if len(pair.list) == 2 {
+			vals[pair.list[0].atom] = pair.list[1]
+		}
+	}
+	var args []string
+	inputs := map[string]string{}
+	for _, ps := range rep.params {
+		v, ok := vals[ps.term]
+		var lit string
+		if ok {
+			lit, ok = goLiteral(v, ps.typ)
+		}
+		if bs, has := rep.bitsSyms[ps.term]; has {
+			// the exact bit pattern (NaN payloads) when the function reads it
+			if bv, has := vals[bs]; has {
+				if n, good := bitsOf(bv); good {
+					tn := types.TypeString(ps.typ, func(p *types.Package) string { return "" })
+					if ps.typ.Underlying().(*types.Basic).Kind() == types.Float32 {
+						lit, ok = fmt.Sprintf("%s(math.Float32frombits(0x%x))", tn, n), true
+					} else {
+						lit, ok = fmt.Sprintf("%s(math.Float64frombits(0x%x))", tn, n), true
+					}
+					vals[ps.term] = parseSexp(fmt.Sprintf("((_ to_fp %s) %s)", map[bool]string{true: "8 24", false: "11 53"}[ps.typ.Underlying().(*types.Basic).Kind() == types.Float32], sexpString(bv)))[0]
+				}
+			}
+		}
+		if !ok {
+			// the parameter is irrelevant to the query (sliced away): any value will do
+			lit = types.TypeString(ps.typ, func(p *types.Package) string { return "" }) + "(0)"
+			if b := ps.typ.Underlying().(*types.Basic); b.Info()&types.IsBoolean != 0 {
+				lit = "false"
+			}
+		}
+		args = append(args, lit)
+		inputs[ps.name] = lit
+	}
+	replayCount++
+	out := &replayOut{files: map[string]string{}}
+	var prints []string
+	var lhs []string
+	for i := 0; i < res.Len(); i++ {
+		lhs = append(lhs, fmt.Sprintf("r%d", i))
+		b := res.At(i).Type().Underlying().(*types.Basic)
+		switch {
+		case b.Kind() == types.Float32:
+			prints = append(prints, fmt.Sprintf("fmt.Printf(\"REPLAY-RESULT %d f32bits %%d\\n\", math.Float32bits(float32(r%d)))", i, i))
+		case b.Kind() == types.Float64:
+			prints = append(prints, fmt.Sprintf("fmt.Printf(\"REPLAY-RESULT %d f64bits %%d\\n\", math.Float64bits(float64(r%d)))", i, i))
+		case b.Info()&types.IsBoolean != 0:
+			prints = append(prints, fmt.Sprintf("fmt.Printf(\"REPLAY-RESULT %d bool %%v\\n\", bool(r%d))", i, i))
+		default:
+			prints = append(prints, fmt.Sprintf("fmt.Printf(\"REPLAY-RESULT %d int %%d\\n\", r%d)", i, i))
+		}
+	}
+	call := fmt.Sprintf("%s(%s)", fn.Name(), strings.Join(args, ", "))
+	if len(lhs) > 0 {
+		call = strings.Join(lhs, ", ") + " := " + call
+	}
+	src := fmt.Sprintf(`package %s
+
+import (
+	"fmt"
+	"math"
+	"testing"
+)
+
+var _ = math.Pi
+
+// Generated by govc from the solver's counterexample for obligation
+// %s
+func TestZZVerifReplay(t *testing.T) {
+	defer func() {
+		if r := recover(); r != nil {
+			fmt.Printf("REPLAY-PANIC %%v\n", r)
+		}
+	}()
+	%s
+	%s
+}
+`, fn.Pkg.Pkg.Name(), r.Name, call, strings.Join(prints, "\n\t"))
+	pkgDir := filepath.Dir(rep.Contract.File)
+	dir := filepath.Join(o.OutDir, "replay", fileSafe(r.Name))
+	os.MkdirAll(dir, 0o755)
+	testFile := filepath.Join(dir, "zz_verif_replay_test.go")
+	os.WriteFile(testFile, []byte(src), 0o644)
+	ov, _ := json.Marshal(map[string]any{"Replace": map[string]string{filepath.Join(pkgDir, "zz_verif_replay_test.go"): testFile}})
+	ovFile := filepath.Join(dir, "ov.json")
+	os.WriteFile(ovFile, ov, 0o644)
+	runsh := fmt.Sprintf("#!/bin/sh\nexport PATH=/opt/veriftools/go1.26.8/bin:$PATH GOFLAGS=-mod=mod GOPROXY=off GOSUMDB=off GOTOOLCHAIN=local\ncd %s && ulimit -v 8000000 && go test -overlay %s -vet=off -count=1 -timeout 60s -run TestZZVerifReplay -v .\n", pkgDir, ovFile)
+	os.WriteFile(filepath.Join(dir, "run.sh"), []byte(runsh), 0o755)
+	ij, _ := json.MarshalIndent(map[string]any{"function": rep.Name, "obligation": r.Name, "inputs": inputs}, "", " ")
+	out.files["input.json"] = string(ij)
+	out.files["zz_verif_replay_test.go"] = src
+	out.files["ov.json"] = string(ov)
+	out.files["run.sh"] = runsh
+	ctx, cancel := context.WithTimeout(context.Background(), 120*time.Second)
+	defer cancel()
+	b, _ := exec.CommandContext(ctx, "/bin/sh", filepath.Join(dir, "run.sh")).CombinedOutput()
+	out.log = "---- replay on the real code ----\n" + string(b)
+	if r.Kind == "nopanic" {
+		out.confirmed = strings.Contains(string(b), "REPLAY-PANIC")
+		return out
+	}
+	if strings.Contains(string(b), "REPLAY-PANIC") {
+		out.log += "\nthe real function panicked on the counterexample\n"
+		out.confirmed = true
+		return out
+	}
+	// observed results -> ground evaluation of the clause
+	obs := map[int]string{}
+	re := regexp.MustCompile(`REPLAY-RESULT (\d+) (\w+) (\S+)`)
+	for _, m := range re.FindAllStringSubmatch(string(b), -1) {
+		var idx int
+		fmt.Sscan(m[1], &idx)
+		obs[idx] = m[2] + " " + m[3]
+	}
+	if len(obs) != res.Len() {
+		out.log += "\ncould not read the results back\n"
+		return out
+	}
+	verdict, q := groundEval(rep, r, vals, obs)
+	out.files["ground.smt2"] = q
+	out.log += "\nground evaluation of the clause on (inputs, observed outputs): " + verdict + "\n"
+	out.confirmed = verdict == "violated"
+	return out
+}
+
+// groundEval re-evaluates the violated ensures clause with the parameters fixed
+// to the model's values and the result fixed to what the real code returned.
+func groundEval(rep *FnReport, r Result, vals map[string]*sexp, obs map[int]string) (string, string) {
+	ctr := rep.Contract
+	label := r.Group[strings.LastIndex(r.Group, "/post:")+len("/post:"):]
+	var clause *Clause
+	for i := range ctr.Ensures {
+		if ctr.Ensures[i].Label == label {
+			clause = &ctr.Ensures[i]
+		}
+	}
+	if clause == nil {
+		return "clause not found", ""
+	}
+	verdict := "undecided"
+	var query string
+	func() {
+		defer func() {
+			if x := recover(); x != nil {
+				verdict = fmt.Sprint("cannot evaluate: ", x)
+			}
+		}()
+		e := &Engine{sc: newSortCtx(ctr.Mode), prog: rep.prog, contracts: map[string]*Contract{}, preds: rep.preds, declared: map[string]bool{}, hsort: map[string]string{}}
+		e.sc.impls = implsOf(rep.prog)
+		f := &frame{e: e, fn: rep.fn, vals: map[ssa.Value]Val{}, reach: map[*ssa.BasicBlock]string{}, exitSt: map[*ssa.BasicBlock]*State{},
+			edge: map[[2]int]string{}, ctr: ctr, name: rep.Name, params: map[string]Val{}}
+		st0 := &State{heaps: map[string]string{}}
+		f.pre = st0
+		for i, p := range rep.fn.Params {
+			t := e.declare("p_"+p.Name(), e.sc.sortOf(p.Type()))
+			f.params[p.Name()] = Val{term: t, typ: p.Type()}
+			if v, ok := vals[rep.params[i].term]; ok {
+				e.decls = append(e.decls, fmt.Sprintf("(assert (= %s %s))", t, sexpString(v)))
+			} else {
+				e.decls = append(e.decls, fmt.Sprintf("(assert (= %s %s))", t, e.sc.zero(p.Type())))
+			}
+		}
+		env := map[string]Val{}
+		res := rep.fn.Signature.Results()
+		for i := 0; i < res.Len(); i++ {
+			t := res.At(i).Type()
+			rt := e.declare("res", e.sc.sortOf(t))
+			parts := strings.Fields(obs[i])
+			var lit string
+			switch parts[0] {
+			case "f32bits":
+				n, _ := new(big.Int).SetString(parts[1], 10)
+				lit = fmt.Sprintf("((_ to_fp 8 24) (_ bv%s 32))", n.String())
+			case "f64bits":
+				n, _ := new(big.Int).SetString(parts[1], 10)
+				lit = fmt.Sprintf("((_ to_fp 11 53) (_ bv%s 64))", n.String())
+			case "bool":
+				lit = parts[1]
+			default:
+				n, _ := new(big.Int).SetString(parts[1], 10)
+				if e.sc.arith == "int" {
+					lit = n.String()
+					if n.Sign() < 0 {
+						lit = "(- " + new(big.Int).Neg(n).String() + ")"
+					}
+				} else {
+					w, _ := intWidth(t.Underlying().(*types.Basic))
+					if n.Sign() < 0 {
+						n = new(big.Int).Add(n, new(big.Int).Lsh(big.NewInt(1), uint(w)))
+					}
+					lit = fmt.Sprintf("(_ bv%s %d)", n.String(), w)
+				}
+			}
+			e.decls = append(e.decls, fmt.Sprintf("(assert (= %s %s))", rt, lit))
+			v := Val{term: rt, typ: t}
+			env[fmt.Sprintf("result%d", i)] = v
+			if res.Len() == 1 {
+				env["result"] = v
+			}
+		}
+		for _, n := range sortedKeys(ctr.Funs) {
+			e.decls = append(e.decls, fmt.Sprintf("(declare-fun %s %s)", n, ctr.Funs[n]))
+		}
+		prop := f.evalSpec(clause.Src, st0, env, st0)
+		var sb strings.Builder
+		sb.WriteString(e.prelude())
+		for _, d := range e.decls {
+			sb.WriteString(d + "\n")
+		}
+		// the clause holds on these concrete values iff (not clause) is unsat
+		sb.WriteString(fmt.Sprintf("(assert (not %s))\n(check-sat)\n", prop))
+		query = sb.String()
+		tmp, _ := os.CreateTemp("", "ground*.smt2")
+		tmp.WriteString(query)
+		tmp.Close()
+		defer os.Remove(tmp.Name())
+		ctx, cancel := context.WithTimeout(context.Background(), 60*time.Second)
+		defer cancel()
+		b, _ := exec.CommandContext(ctx, "z3-new", "-T:50", tmp.Name()).CombinedOutput()
+		switch firstLine(b) {
+		case "sat":
+			verdict = "violated"
+		case "unsat":
+			verdict = "holds (the abstraction was too coarse for this model)"
+		default:
+			verdict = "undecided: " + firstLine(b)
+		}
+	}()
+	return verdict, query
+}
+
+func sexpString(x *sexp) string {
+	if x.atom != "" {
+		return x.atom
+	}
+	var ps []string
+	for _, c := range x.list {
+		ps = append(ps, sexpString(c))
+	}
+	return "(" + strings.Join(ps, " ") + ")"
+}
+
+// runReplay re-runs a replay directory written by an earlier check.
+func runReplay(dir string) int {
+	b, err := os.ReadFile(filepath.Join(dir, "obligation.txt"))
+	if err != nil {
+		fmt.Println("not a replay directory:", err)
+		return 2
+	}
+	fmt.Print(string(b))
+	if _, err := os.Stat(filepath.Join(dir, "run.sh")); err == nil {
+		cmd := exec.Command("/bin/sh", filepath.Join(dir, "run.sh"))
+		cmd.Stdout, cmd.Stderr = os.Stdout, os.Stderr
+		cmd.Run()
+	} else if s, err := os.ReadFile(filepath.Join(dir, "solver.txt")); err == nil {
+		fmt.Print(string(s))
+	}
+	if q := filepath.Join(dir, "query.smt2"); fileExists(q) {
+		out, _ := exec.Command("z3-new", "-T:60", q).CombinedOutput()
+		fmt.Printf("re-running the failed obligation's query: %s\n", firstLine(out))
+	}
+	return 0
+}
+
+func fileExists(p string) bool {
+	_, err := os.Stat(p)
+	return err == nil
+}
+
+func residualNotes(prop string) []string {
+	b, err := os.ReadFile(filepath.Join(verifDir, "contracts", "residual", prop+".txt"))
+	if err != nil {
+		return nil
+	}
+	var out []string
+	for _, ln := range strings.Split(string(b), "\n") {
+		if ln = strings.TrimSpace(ln); ln != "" && !strings.HasPrefix(ln, "#") {
+			out = append(out, "not decided (residual): "+ln)
+		}
+	}
+	return out
+}
